@@ -36,7 +36,14 @@ OutOf(kind, s) == CASE kind = "timer" -> (IF s.st = 2 THEN 1 ELSE 0)
                     [] kind = "ts" -> (IF s.st \in {2, 4} THEN 1 ELSE 0)
                     [] OTHER -> s.st
 (* what get_state() reports is the state the block is really in: its output is the one of that state *)
-Faithful(e) == \A b \in B : (e.live[b].st # -9 /\ b \notin failed) => e.outc[b] = OutOf(H(tid).blocks[b].kind, e.live[b])
+(* ... and a timer it reports is a pending one: never one that was due in the past (a state saved    *)
+(* with such an expiry would be discarded as expired by the next start although the block is in it)  *)
+Faithful(e) == \A b \in B : (e.live[b].st # -9 /\ b \notin failed) =>
+                   /\ e.outc[b] = OutOf(H(tid).blocks[b].kind, e.live[b])
+                   /\ (e.live[b].due = P!NONE \/ e.live[b].due >= e.t)
+(* the block whose timer has just fired does not report that timer any more, whether the timed     *)
+(* event was accepted or not                                                                        *)
+FiredGone(e) == e.live[e.b].due = P!NONE \/ e.live[e.b].due > e.t
 InitLine(e) == /\ phase = "new" /\ phase' = "running" /\ startOk' = TRUE /\ Faithful(e)
                /\ \A b \in B : e.store[b] = (IF b \in pers THEN e.live[b] ELSE store[b])  \* saved after initialisation
                /\ store' = e.store /\ live' = e.live /\ hist' = Append(hist, Rec(e.store, ts))
@@ -97,7 +104,7 @@ Step == /\ l <= Len(Ev(tid))
         /\ LET e == Ev(tid)[l] IN
              \/ e.ev = "init" /\ InitLine(e)
              \/ e.ev = "event" /\ EventLine(e)
-             \/ e.ev = "fire" /\ Handled(e)
+             \/ e.ev = "fire" /\ Handled(e) /\ FiredGone(e)
              \/ e.ev = "self" /\ SelfLine(e)
              \/ e.ev = "abort" /\ AbortLine(e)
              \/ e.ev = "stop" /\ StopLine(e)
